@@ -180,4 +180,27 @@ BlockstoreNoLeak == \A c \in bstore : \E h \in stored : c \in MetaOf(h)
 \* the pruner never removes an edge inside the sampling window, so the syncer's repaired guard is sound:
 \* a pruned header that bounds a gap is outside the sampling window
 PrunedEdgesAreOld == \A h \in pruned : (h \in Edges(Synced)) => ~InWin(h, WSamp)
+
+(* ---- liveness of the composition (honest, eventually quiet environment) ---- *)
+\* In a finite model the chain stops at height N.  The real chain keeps producing blocks and every
+\* head change makes the daser rebuild its queue (that is the only time back-filled headers enter it:
+\* observation recorded in DESIGN 12.3).  DaserRefresh stands for "a later head change happened".
+DaserRefresh == /\ dphase = "connected" /\ netHead = N /\ queue # QueueNow
+                /\ headH' = StoreHead /\ queue' = QueueNow /\ obs' = NoObs
+                /\ UNCHANGED <<dphase, ongoing, timedOut, promised, batch>> /\ UNCH_STORE /\ UNCH_ENV /\ UNCH_SYNCER
+Workers == DaserRefresh \/ TryInit \/ HeaderSub \/ FetchNext \/ BatchOk \/ DaserConnect \/ DaserNoticeHead \/ Schedule
+           \/ (\E h \in 1..N : SampleOk(h)) \/ ComputeBatch \/ RemoveNext
+LiveNext == Workers \/ NewBlock \/ Connect
+Fairness == /\ WF_vars(TryInit) /\ WF_vars(HeaderSub) /\ WF_vars(FetchNext) /\ WF_vars(BatchOk)
+            /\ WF_vars(DaserConnect) /\ WF_vars(DaserNoticeHead) /\ WF_vars(Schedule)
+            /\ WF_vars(\E h \in 1..N : SampleOk(h)) /\ WF_vars(ComputeBatch) /\ WF_vars(RemoveNext)
+            /\ WF_vars(Connect) /\ WF_vars(NewBlock) /\ WF_vars(DaserRefresh)
+LiveSpec == Init /\ [][LiveNext]_vars /\ Fairness
+\* every height of the sampling window up to the head ends up synced (stored, or sampled and pruned)
+WindowSynced == \A h \in 1..netHead : InWin(h, WSamp) => h \in Synced
+\* ... and every stored block of the window ends up sampled
+WindowSampled == \A h \in stored : InWin(h, WSamp) => h \in sampled
+EventuallySyncedAndSampled == <>[](netHead = N => (WindowSynced /\ WindowSampled))
+\* the pruner eventually removes everything outside both windows
+EventuallyPruned == <>[](netHead = N => \A h \in stored : InWin(h, WPrune) \/ InWin(h, WSamp))
 =============================================================================
